@@ -399,6 +399,8 @@ def goFuncSig : Nat → Option GoSig
   | 20 => some { params := [b!"map[string]interface {}"] }
   | 21 => some { params := [b!"main.VS1"] }
   | 22 => some { params := [ifaceT, ifaceT] }
+  | 23 => some { takesCtx := true, params := [b!"string", b!"string", b!"string"] }
+  | 24 => some { takesCtx := true, params := [b!"string", b!"string", b!"string", b!"string", b!"string"] }
   | _ => none
 
 /-- what a call yields: the reflect value and, for a `*Value` result, its safe flag
@@ -431,6 +433,8 @@ def goFuncRun (id : Nat) (autoescape : Bool) (args : List V) : GoOut :=
   | 20, [m] => .ok (.int (Int64.ofNat m.v.len), none)
   | 21, [st] => .ok ((match st.v with | .struct _ fs _ => (fs.lookup b!"A").getD .nil | _ => .nil), none)
   | 22, [_, c] => .ok (c.v, none)
+  | 23, [a, c, d] => .ok (.str (a.v.toS ++ b!"-" ++ c.v.toS ++ b!"-" ++ d.v.toS), none)
+  | 24, [a, c, d, e, f] => .ok (.str (a.v.toS ++ c.v.toS ++ d.v.toS ++ e.v.toS ++ f.v.toS), none)
   | _, _ => .error "unreachable: arity was checked"
 
 /-- methods of the harness's struct type: (name, declared on the pointer type, signature) -/
